@@ -41,7 +41,9 @@ RULE = ("run i < table size decodes the i-th case of the finite table {request-l
         "re-entering; a kill (kill_operation / watchdog time-out / shutdown) delivered at a controller step of the operation in "
         "flight - before or after its k-th acquire_resource, before its n-th advance - as another thread's kill at that "
         "interleaving point would be; work results of every truthiness (token, None, 0, '', [], {}, False, 0.0) alone and "
-        "against an accepting / rejecting / raising validator} x {CoordinationSystem, IntegratedCell}; later runs sample cases with one or two faults, random "
+        "against an accepting / rejecting / raising validator; work / validation raising built-in exception types with and "
+        "without a message (str(e) == ''); the id killed and listed again under the same id, or a requested resource registered "
+        "again while held, from work / validation / a checkpoint / a controller step} x {CoordinationSystem, IntegratedCell}; later runs sample cases with one or two faults, random "
         "priorities and pre-emption flags, re-entrant stepped holders; every case is followed by 1-3 seeded further "
         "operations (stepped start/acquire/release/complete/abort, kill, clock + maintenance, shutdown, further "
         "execute_operation calls); non-trivial = a run in which a fault fired, a duplicate entry was acquired or a foreign "
@@ -73,7 +75,8 @@ EXPECT_PROBES = ("exit_commit", "exit_blocked", "exit_unknown_resource", "exit_c
                  "stall_killed_inside_work", "stepped_reentrant_hold", "table_case", "step_kill_fired", "step_kill_acq_before",
                  "step_kill_acq_after", "step_kill_adv_before", "acquired_after_being_killed", "exit_after_kill_failure",
                  "exit_after_kill_commit", "falsy_work_result", "adopted_hold", "preowned_lock",
-                 "context_abandoned", "id_reused_after_end", "blocked_on_orphan_hold")
+                 "context_abandoned", "id_reused_after_end", "blocked_on_orphan_hold", "requeued_same_id", "reregistered",
+                 "reregistered_while_held", "validator_raised_empty_message")
 
 RES = ["r0", "r1", "r2"]
 PHASES = {"G0": Phase.G0, "G1": Phase.G1, "S": Phase.S, "G2": Phase.G2, "M": Phase.M}
@@ -112,6 +115,22 @@ def _single_faults():
         for act in ("kill_self", "maint", "shutdown"):
             out.append({"step": [["adv", n, "before", act]]})
     out.append({"step": [["adv", 1, "before", "kill_self"]]})
+    # collaborators raising specific built-in types, with and without a message (str(e) == "")
+    for kind in EXC_KINDS[1:]:
+        out.append({"work": ["raise", kind]})
+        out.append({"validate": ["raise", kind]})
+    # the same id listed again from inside the call (kill + start_operation under the id), and a requested resource
+    # registered again while it is held - from work, validation, a controller step, a checkpoint
+    for act in ("kill_requeue", "rereg"):
+        out.append({"work": ["reenter", act]})
+        out.append({"validate": ["reenter", act]})
+        for kk in (1, 2):
+            for when in ("before", "after"):
+                out.append({"step": [["acq", kk, when, act]]})
+        out.append({"step": [["adv", 2, "before", act]]})
+    for ph, n in (["G0", 2], ["G1", 1]):
+        for kind in ("kill", "requeue", "rereg"):
+            out.append({"cp": [[ph, n, kind]]})
     # work results of every truthiness, alone and against a rejecting / accepting validator
     for r in RESULTS[1:]:
         out.append({"result": r})
@@ -122,6 +141,29 @@ def _single_faults():
 
 
 RESULTS = ["tok", None, 0, "", [], {}, False, 0.0]
+EXC_KINDS = ["msg", "empty", "assert", "runtime_empty", "value_empty", "type", "key_empty", "attr"]
+
+
+def _exc(kind, where):
+    """The exception a scripted collaborator raises: message-carrying and empty-message variants, built-in types."""
+    if kind == "msg":
+        return _Fault(where)
+    if kind == "empty":
+        return _Fault()
+    if kind == "assert":
+        return AssertionError()
+    if kind == "runtime_empty":
+        return RuntimeError()
+    if kind == "value_empty":
+        return ValueError("")
+    if kind == "type":
+        return TypeError("unsupported operand type(s)")
+    if kind == "key_empty":
+        return KeyError()
+    if kind == "attr":
+        return AttributeError("'NoneType' object has no attribute 'x'")
+    raise HarnessError(kind)
+
 FAULTS = _single_faults()
 TABLE = len(SHAPES) * len(FOREIGN) * len(FAULTS) * 2
 
@@ -195,7 +237,8 @@ def _further(rng, cfg, n, ids):
                 ops.append(["acq", rid, rng.choice(RES)])
             continue
         kind = weighted(rng, [(4, "exec"), (2.5, "step_acq"), (1.5, "start_acq"), (1, "rel"), (1, "complete"),
-                              (1, "abort"), (1.2, "kill"), (1.5, "clock_maint"), (0.8, "shutdown"), (0.6, "maint")])
+                              (1, "abort"), (1.2, "kill"), (1.5, "clock_maint"), (0.8, "shutdown"), (0.6, "maint"),
+                              (0.7, "rereg")])
         if kind == "exec":
             rl = [rng.choice(RES) for _ in range(rng.choice([1, 1, 2, 2, 3]))]
             f = {}
@@ -218,6 +261,9 @@ def _further(rng, cfg, n, ids):
             ops.append(["maint"])
         elif kind == "shutdown":
             ops.append(["shutdown"])
+        elif kind == "rereg":
+            r = rng.choice(RES)
+            ops.append(["rereg", r, rng.choice([cfg["res"][r], cfg["res"][r], not cfg["res"][r]])])
         else:
             ops.append(["maint"])
     return ops
@@ -251,7 +297,8 @@ def gen(rng, tier, i):
                 faults.setdefault(key, v)
     if rng.random() < 0.25:       # a controller-step kill on top, so that it meets every later exit path
         faults.setdefault("step", [[rng.choice(["acq", "acq", "adv"]), rng.choice([1, 1, 2, 2, 3, 4]),
-                                    rng.choice(["before", "after"]), rng.choice(["kill_self", "maint", "shutdown"])]])
+                                    rng.choice(["before", "after"]),
+                                    rng.choice(["kill_self", "maint", "shutdown", "kill_requeue", "rereg"])]])
     if rng.random() < 0.3:
         faults.setdefault("result", rng.choice(RESULTS))
     preempt = {r: rng.random() < 0.4 for r in RES}
@@ -360,6 +407,9 @@ class World:
             self.cell = IntegratedCell(max_operation_time=kw.get("max_operation_time"))
             self.cell.coordination = self.sys
             k.probe("via_cell")
+        self.rereg_count = {}        # r -> how often it was registered again
+        self.prios = {}
+        self.reslists = {}           # opid -> request list of the call in flight (for re-entrant actions)
         self.orphans = {}            # (opid, r) -> holds the *id* has that no live context of it obtained
         for r in RES:
             po = (cfg.get("preowned") or {}).get(r)
@@ -431,6 +481,11 @@ class World:
                         if kind == "raise":
                             self.k.fault("collab_raise")
                             raise _Fault("checkpoint " + name)
+                        if kind in ("kill", "requeue", "rereg"):
+                            # a checkpoint that acts on the system and then answers as the default would
+                            self.step_action({"kill": "kill_self", "requeue": "kill_requeue", "rereg": "rereg"}[kind],
+                                             ctx.operation_id)
+                            break
                         self.k.fault("collab_adversarial_value")
                         return False
                 return default[name](ctx)
@@ -468,7 +523,7 @@ class World:
         if res in (LockResult.ACQUIRED, LockResult.PREEMPTED):
             for key in [x for x in self.orphans if x[1] == r]:
                 del self.orphans[key]        # the lock changed hands
-        rec = self.live.get(opid) or self.zombie.get(opid)
+        rec = self.zombie.get(opid) or self.live.get(opid)     # the call in flight acquires, not a re-queued context
         if res in (LockResult.ACQUIRED, LockResult.PREEMPTED, LockResult.REENTRANT):
             self.touched.add(r)
         if rec is None:
@@ -509,6 +564,19 @@ class World:
                 # behavioural leak: nobody live holds r by the history, yet it cannot be acquired
                 self.k.violation("release", "leaked_lock", self.last_shape.get((owner, r), "unknown_hold"),
                                  f"{opid} BLOCKED on {r}: owner {owner!r} ended via {self.exit.get(owner)}")
+
+    def rereg(self, r):
+        """r was registered again: whatever the library installs, the registered resource r is a new matter - nobody
+        holds it by the history any more (the statement speaks about *registered* resources)."""
+        self.touched.add(r)
+        self.rereg_count[r] = self.rereg_count.get(r, 0) + 1
+        for o, rec in list(self.live.items()) + list(self.zombie.items()):
+            if r in rec["holds"]:
+                self.last_shape[(o, r)] = "reregistered_hold"
+                del rec["holds"][r]
+                self.k.probe("reregistered_while_held")
+        for key in [x for x in self.orphans if x[1] == r]:
+            del self.orphans[key]
 
     def hold_shape(self, opid, r):
         rec = self.live.get(opid) or self.zombie.get(opid)
@@ -598,6 +666,23 @@ def run(plan, k):
             for oid in list(w.live):
                 w.end(oid, "shutdown")
                 w.must_be_dead.append((oid, "shutdown"))
+        elif kind == "kill_requeue":
+            out = call(system.kill_operation, opid, "requeue")
+            if out.kind == "ok" and out.value is not None:
+                w.end(opid, "manual_kill")
+            if opid not in w.live:
+                out2 = call(system.start_operation, opid, "agent-requeued", prio)
+                if out2.kind == "ok":
+                    w.used.add(opid)
+                    w.live[opid] = {"holds": {}, "stepped": True, "ctx": out2.value, "requeued": True}
+                    k.probe("requeued_same_id")
+        elif kind == "rereg":
+            rl = [r for r in (reslist or w.reslists.get(opid, [])) if r in ctrl.resources] or ["r0"]
+            r = rl[0]
+            out = call((w.cell or system).register_resource, r, bool(cfg["res"].get(r)))
+            if out.kind == "ok":
+                w.rereg(r)
+            k.probe("reregistered")
         elif kind.startswith("nested"):
             k.probe("nested_exec")
             if depth >= 1:
@@ -620,8 +705,12 @@ def run(plan, k):
 
     def do_exec(op, depth, tr=None):
         _, opid, reslist, prio, faults = op
-        if not w.begin(opid, {"holds": {}, "stepped": False, "in_call": True}):
+        myrec = {"holds": {}, "stepped": False, "in_call": True}
+        if not w.begin(opid, myrec):
             return
+        w.reslists[opid] = list(reslist)
+        w.prios[opid] = prio
+        gen0 = dict(w.rereg_count)
         st = {"work": 0, "work_done": False, "validate": 0, "held_at_entry": None, "v_ok": None,
               "v_before_work": False, "v_judged": True}
         if faults.get("cp"):
@@ -639,12 +728,14 @@ def run(plan, k):
 
         def work():
             st["work"] += 1
-            missing = [r for r in requested if ctrl.resources[r].owner != opid]
+            # a resource registered again during this call is a different registered resource now: not counted
+            missing = [r for r in requested if ctrl.resources[r].owner != opid
+                       and w.rereg_count.get(r, 0) == gen0.get(r, 0)]
             # "the work function runs ... only while the operation holds all requested resources": judged at entry,
             # also for an operation that was killed at an earlier controller step (the kill released its resources;
             # running the work function regardless is exactly what the clause forbids)
             st["held_at_entry"] = missing
-            if opid not in w.live:
+            if w.live.get(opid) is not myrec:
                 k.probe("work_ran_after_kill")
                 if missing:
                     k.probe("work_ran_after_kill_without_all_resources")
@@ -655,15 +746,15 @@ def run(plan, k):
                 w.fault_fired = True
                 k.fault("collab_raise")
                 flags.add("work_raise")
-                raise _Fault("work")
+                raise _exc(wf[1] if len(wf) > 1 else "msg", "work")
             if wf[0] == "stall":
                 w.fault_fired = True
                 k.fault("collab_stall")
                 CLOCK.advance(LIMIT + 1.0)
                 if wf[1]:
-                    was = opid in w.live
+                    was = w.live.get(opid) is myrec
                     reenter("maint", opid, reslist, prio, depth)
-                    if was and opid not in w.live:
+                    if was and w.live.get(opid) is not myrec:
                         k.probe("stall_killed_inside_work")
             elif wf[0] == "reenter":
                 reenter(wf[1], opid, reslist, prio, depth)
@@ -694,7 +785,10 @@ def run(plan, k):
                 k.fault("collab_raise")
                 flags.add("validate_raise")
                 st["v_ok"] = False
-                raise _Fault("validate")
+                e = _exc(vf[1] if len(vf) > 1 else "msg", "validate")
+                if str(e) == "":
+                    k.probe("validator_raised_empty_message")
+                raise e
             if vf[0] == "reenter":
                 reenter(vf[1], opid, reslist, prio, depth)
                 st["v_ok"] = True
@@ -712,7 +806,7 @@ def run(plan, k):
         if out.kind not in ("ok", "raised"):
             k.violation("returns", out.kind, "execute_operation", str(out.exc)[:200])
         # classify the exit path (detail and probes only)
-        rec = w.live.get(opid) or w.zombie.get(opid)
+        rec = w.zombie.get(opid) or w.live.get(opid)
         success = bool(out.kind == "ok" and out.value.success)
         if out.kind == "raised":
             path = "escaped_" + type(out.exc).__name__
@@ -734,8 +828,8 @@ def run(plan, k):
             path = "checkpoint_false"
         else:
             path = "other_failure"
-        if opid in w.live:
-            w.live[opid]["in_call"] = False
+        if w.live.get(opid) is myrec:
+            myrec["in_call"] = False
             w.end(opid, path)
         else:
             k.probe("exit_" + path)   # already ended by a re-entrant kill / shutdown; the call still had its own exit
@@ -744,7 +838,19 @@ def run(plan, k):
                 k.probe("exit_after_kill_" + ("commit" if success else "failure"))
                 for r, h in z["holds"].items():
                     w.last_shape[(opid, r)] = h["shape"]
-        w.must_be_dead.append((opid, "execute_operation"))
+        w.reslists.pop(opid, None)
+        rq = w.live.get(opid)
+        if rq is not None and rq.get("requeued"):
+            # the same id was listed again from inside the call: that is another operation; whether it survives the end of
+            # this call is not the statement's business - follow what the controller says
+            if ctrl.active_operations.get(opid) is rq.get("ctx"):
+                k.probe("requeued_context_survived")
+                rq.pop("requeued")
+            else:
+                k.probe("requeued_context_delisted")
+                del w.live[opid]
+        else:
+            w.must_be_dead.append((opid, "execute_operation"))
 
         # ---- call-level clauses
         if st["work"] > 1:
@@ -773,7 +879,7 @@ def run(plan, k):
                     k.violation("success", "success_without_passed_validation", label,
                                 f"validation={vf} ok={st['v_ok']} calls={st['validate']}")
 
-    w.step_action = lambda kind, opid: reenter(kind, opid, [], 0, 1)
+    w.step_action = lambda kind, opid: reenter(kind, opid, [], (w.prios.get(opid, 0)), 1)
     with SeqTracer(k, scope, 50_000) as tr:
         for op in list(plan.get("pre", [])) + list(plan["ops"]):
             name = op[0]
@@ -849,6 +955,16 @@ def run(plan, k):
                     ev = out.value["coordination"]["apoptosis"] if w.cell is not None else out.value["apoptosis"]
                     k.ev("maint", [[e.operation_id, e.reason.name] for e in ev])
                     apply_events(ev, "maint")
+            elif name == "rereg":
+                if op[1] not in ctrl.resources:
+                    continue
+                out = call((w.cell or system).register_resource, op[1], bool(op[2]), tracer=tr)
+                if out.kind != "ok":
+                    k.violation("returns", out.kind, "register_resource", str(out.exc)[:200])
+                else:
+                    w.rereg(op[1])
+                    k.probe("reregistered")
+                k.ev("rereg", [op[1], bool(op[2])])
             elif name == "shutdown":
                 out = call((w.cell or system).shutdown, tracer=tr)
                 if out.kind != "ok":
